@@ -7,6 +7,7 @@ package main
 import (
 	"encoding/hex"
 	"fmt"
+	"time"
 
 	"github.com/LemoFoundationLtd/lemochain-core/chain/types"
 	"github.com/LemoFoundationLtd/lemochain-core/common/rlp"
@@ -22,6 +23,8 @@ type segSpec struct {
 	Confirms []int
 	TxsPer   []int
 	Dt       []int
+	// TxLife: expiration of the segment's transactions relative to their block's time (0 = 600)
+	TxLife int
 }
 
 // mineSegment builds the blocks of a segment on a throw-away node. Block 1 funds the users.
@@ -35,6 +38,10 @@ func mineSegment(w *fx.World, dir string, sp segSpec) ([]*types.Block, [][]types
 	var blocks []*types.Block
 	var sigs [][]types.SignData
 	seq := int64(1)
+	life := uint64(600)
+	if sp.TxLife > 0 {
+		life = uint64(sp.TxLife)
+	}
 	for i := 0; i < sp.N; i++ {
 		t := head.Time() + uint32(sp.Dt[i])
 		var txs types.Transactions
@@ -49,12 +56,12 @@ func mineSegment(w *fx.World, dir string, sp segSpec) ([]*types.Block, [][]types
 				to := w.Users[int(seq*7+3)%len(w.Users)]
 				switch seq % 5 {
 				case 0:
-					txs = append(txs, B.Vote(from, w.Deputies[int(seq)%len(w.Deputies)].Addr, uint64(t)+600+uint64(seq)))
+					txs = append(txs, B.Vote(from, w.Deputies[int(seq)%len(w.Deputies)].Addr, uint64(t)+life+uint64(seq)))
 				case 1:
-					sub := B.Transfer(to, from.Addr, fx.LEMO(seq), uint64(t)+700+uint64(seq))
-					txs = append(txs, B.Box(from, types.Transactions{sub}, uint64(t)+600+uint64(seq)))
+					sub := B.Transfer(to, from.Addr, fx.LEMO(seq), uint64(t)+life+100+uint64(seq))
+					txs = append(txs, B.Box(from, types.Transactions{sub}, uint64(t)+life+uint64(seq)))
 				default:
-					txs = append(txs, B.Transfer(from, to.Addr, fx.LEMO(seq), uint64(t)+600+uint64(seq)))
+					txs = append(txs, B.Transfer(from, to.Addr, fx.LEMO(seq), uint64(t)+life+uint64(seq)))
 				}
 			}
 		}
@@ -128,9 +135,19 @@ func genPMCase(seed uint64, idx, try int, scratch string) (*PMCase, error) {
 	nDep := []int{1, 2, 3, 3, 4, 5, 5}[r.Intn(7)]
 	n := r.Range(6, 12)
 	wcfg := fx.WorldCfg{Deputies: nDep, Users: 6, SlotMs: 10000}
+	// recent: the segment's chain time ends shortly before the wall clock, so that transactions of its blocks are still
+	// valid for the transaction handler (which compares expirations with time.Now) and can be sent in batches together
+	// with fresh ones (kind "in-chain"): structure and order of the case stay a function of the seed, the timestamps not
+	recent := r.Chance(1, 3)
+	if recent {
+		wcfg.GenesisTime = uint32(time.Now().Unix()) - 500
+	}
 	w := fx.NewWorld(wcfg)
 	wcfg.GenesisTime, wcfg.SlotMs = w.GenesisTime, w.SlotMs
 	sp := segSpec{Deputies: nDep, N: n}
+	if recent {
+		sp.TxLife = 1200
+	}
 	for i := 0; i < n; i++ {
 		sp.Dt = append(sp.Dt, []int{1, 2, 3, 7, 11, 19, 25, 33}[r.Intn(8)])
 		sp.TxsPer = append(sp.TxsPer, r.Intn(4))
@@ -175,6 +192,15 @@ func genPMCase(seed uint64, idx, try int, scratch string) (*PMCase, error) {
 	}
 	cs.DeferServe = r.Chance(1, 3)
 	cs.Txs = genTxSpecs(r, r.Intn(15))
+	if recent {
+		for i := 1; i < len(blocks); i++ {
+			for k := range blocks[i].Txs {
+				if r.Chance(1, 2) {
+					cs.Txs = append(cs.Txs, TxSpec{Kind: "in-chain", From: i, To: k})
+				}
+			}
+		}
+	}
 
 	// block delivery order
 	var order []int
